@@ -421,6 +421,8 @@ def applyStep (sh : Shape) : Step → Shape
 inductive Event
   | step (s : Step)
   | req (r : Req)
+  | resetMeta            -- Daemon.resetMetadataCache(obj): the cached member list of the object's class is dropped
+  | getMeta              -- DaemonObject.get_metadata(obj) / the connect handshake: advertise the member list
   deriving DecidableEq, Repr
 
 /-- replies and effect logs of the requests of a history, in order -/
@@ -428,12 +430,16 @@ def runHistory (cfg : Cfg) : Shape → List Event → List (Reply × List Nat)
   | _, [] => []
   | sh, .step s :: rest => runHistory cfg (applyStep sh s) rest
   | sh, .req r :: rest => dispatch cfg sh r :: runHistory cfg sh rest
+  | sh, .resetMeta :: rest => runHistory cfg sh rest
+  | sh, .getMeta :: rest => runHistory cfg sh rest
 
 /-- the state of the object at the time of each request of a history -/
 def statesOf : Shape → List Event → List (Shape × Req)
   | _, [] => []
   | sh, .step s :: rest => statesOf (applyStep sh s) rest
   | sh, .req r :: rest => (sh, r) :: statesOf sh rest
+  | sh, .resetMeta :: rest => statesOf sh rest
+  | sh, .getMeta :: rest => statesOf sh rest
 
 /-! ### advertised metadata (server.py:907-955 `_get_exposed_members`, only_exposed = True) -/
 
@@ -472,5 +478,15 @@ def metadata (sh : Shape) : Meta :=
   { methods := names.filter fun n => isMethodMember (lookupType n sh.mro)
     oneway := names.filter fun n => isOnewayMember (lookupType n sh.mro)
     attrs := names.filter fun n => isAttrMember (lookupType n sh.mro) }
+
+/-- server.py:921-923, 749-765: the member lists advertised along a history.  The list is computed on first use and
+    cached per class (`cache`); run-time changes do not evict it, `resetMetadataCache` does. -/
+def advertised : Option Meta → Shape → List Event → List Meta
+  | _, _, [] => []
+  | c, sh, .step s :: rest => advertised c (applyStep sh s) rest
+  | c, sh, .req _ :: rest => advertised c sh rest
+  | _, sh, .resetMeta :: rest => advertised none sh rest
+  | some m, sh, .getMeta :: rest => m :: advertised (some m) sh rest
+  | none, sh, .getMeta :: rest => metadata sh :: advertised (some (metadata sh)) sh rest
 
 end Pyro.Expose
